@@ -18,6 +18,18 @@ def parse_catalogue(out):
         raise Infra("cannot parse the exported catalogue: %s" % e)
 
 
+def parse_basefee_cases(out):
+    """The case table printed by MC_BlockRulesBaseFee (ASSUME PrintT(<<"BASEFEECASES", ToJson(Cases)>>))."""
+    m = re.search(r'<<\s*"BASEFEECASES",\s*"(.*?)"\s*>>', out, re.S)
+    if not m:
+        raise Infra("MC_BlockRulesBaseFee did not print its cases")
+    txt = re.sub(r"\s*\n\s*", "", m.group(1)).replace('\\"', '"')
+    try:
+        return json.loads(txt)
+    except Exception as e:
+        raise Infra("cannot parse the exported base-fee cases: %s" % e)
+
+
 def run_driver(ctx, label, args, timeout=1800):
     """Returns (events, blobs-by-id, summary, argv). A crash of the driver with a Go panic is an observation."""
     binp = ctx.build("blockrules")
@@ -73,7 +85,11 @@ def validate_cases(ctx, label, cases, blobs, argv, max_rounds=10, batch=12000):
     drift = []
     for b in range(0, len(cases), batch):
         total += validate_batch(ctx, "%s-%d" % (label, b // batch), cases[b:b + batch], blobs, argv, max_rounds, drift)
-    if drift:
+    if drift and ctx.violations:
+        # a deviation observed on the real code outranks disagreements that follow from it (e.g. mutants derived from a
+        # base block the specification itself rejects)
+        ctx.cov["drift_not_raised_because_of_violations"] = ["%s %s" % (d[0], d[1]) for d in drift[:20]]
+    elif drift:
         kind, key, reason, ev = drift[0]
         if ev.get("rule") == "valid" and ev.get("var") == "rebuilt_identity":
             raise Infra("the rebuilt base block is not handled as valid (%s): pipeline trouble: %s" % (key, reason))
@@ -111,6 +127,10 @@ def validate_batch(ctx, label, cases, blobs, argv, max_rounds, drift):
         ctx.cov["traces_validated_against_impl"] += idx
         k3 = (ev.get("rule"), ev.get("var"), ev.get("prof"))
         pending = [e for e in pending[idx + 1:] if (e.get("rule"), e.get("var"), e.get("prof")) != k3 or e.get("kind") == "arb"]
+        if ev.get("var") == "rebuilt_identity" and kind == "violation":
+            # the base block itself is off-protocol: everything derived from it says nothing more
+            pending = [e for e in pending if not (e.get("kind") == "mutant" and e.get("prof") == ev.get("prof")
+                                                  and e.get("height") == ev.get("height"))]
         if not pending:
             break
     else:
@@ -122,7 +142,7 @@ def classify(ev):
     """Narrow signature prefix of a violating case."""
     if ev.get("e") == "Panic":
         return "panic-decode"
-    vs = [ev.get("fresh"), ev.get("warm"), ev.get("node")]
+    vs = [ev.get("fresh"), ev.get("warm"), ev.get("node", "skipped")]
     if "panic" in vs:
         return "panic"
     if ev.get("store") == "process-wrote":
